@@ -59,6 +59,17 @@ def run_op(op):
                 schema = json.loads(z.read("schema.json"))
             s, m = norm_schema(schema, names)
             return ["dumps", h(s), m]
+        if kind == "after_failed_dump":
+            # a dump that fails after members were written, then a dump of an object sharing those very arrays
+            shared = build(op[1])
+            try:
+                sio.dumps([shared, (i for i in range(2))])
+                return ["after_failed_dump", "first dump unexpectedly succeeded"]
+            except Exception:
+                pass
+            data = sio.dumps(shared)
+            back = sio.loads(data, trusted=sio.get_untrusted_types(data=data))
+            return ["after_failed_dump", "same" if fingerprint(back) == fingerprint(shared) else "DIFFERENT"]
         if kind == "roundtrip":
             data = sio.dumps(build(op[1]))
             gut = sio.get_untrusted_types(data=data)
@@ -94,14 +105,24 @@ def module_state():
         v = getattr(_trusted_types, name)
         if isinstance(v, list):
             st["trusted:" + name] = h(v)
-    for mod in (_model_card, _markup, _audit, _utils):
-        for name, v in vars(mod).items():
-            if isinstance(v, (list, dict, set)) and not name.startswith("__"):
-                st[f"{mod.__name__}.{name}"] = h(sorted(map(repr, v)) if not isinstance(v, dict) else sorted(map(repr, v.items())))
-    for cls in (_model_card.Card, _model_card.Section, _markup.Markdown):
-        for name, v in vars(cls).items():
+    import sys as _sys
+    import inspect
+    # every module-level container and every class-level container of every skops module
+    for mname, mod in sorted(_sys.modules.items()):
+        if not (mname == "skops" or mname.startswith("skops.")) or mod is None or ".tests" in mname:
+            continue
+        for name, v in list(vars(mod).items()):
+            if name.startswith("__"):
+                continue
             if isinstance(v, (list, dict, set)):
-                st[f"{cls.__name__}.{name}"] = h(repr(v))
+                try:
+                    st[f"{mname}.{name}"] = h(sorted(map(repr, v)) if not isinstance(v, dict) else sorted(map(repr, v.items())))
+                except Exception:
+                    st[f"{mname}.{name}"] = "unhashable:%d" % len(v)
+            elif inspect.isclass(v) and getattr(v, "__module__", None) == mname:
+                for an, av in list(vars(v).items()):
+                    if isinstance(av, (list, dict, set)) and not an.startswith("__"):
+                        st[f"{mname}.{v.__name__}.{an}"] = h(sorted(map(repr, av)) if not isinstance(av, dict) else sorted(map(repr, av.items())))
     return st
 
 
